@@ -22,7 +22,7 @@ SPEC = {
                     "vlib/avm.py callsub/retsub/proto/frame_dig/frame_bury semantics"],
     "min_evaluations": {"quick": 8000, "thorough": 100000},
     "must_reach": ["agree_approve", "recursion_self", "recursion_mutual", "recursion_mutual_diffkind", "conv_scratch", "conv_frame",
-                   "byref_recursion_rejected", "calls_completed", "ladder_cases", "abi_recursion_probe_ok", "recipes_byref_family", "recipes_recursive_byref_local", "byref_forwarded"],
+                   "byref_recursion_rejected", "calls_completed", "ladder_cases", "abi_recursion_probe_ok", "recipes_byref_family", "recipes_recursive_byref_local", "byref_forwarded", "declared_type_probe_ok"],
     "shard_timeout": {"quick": 2400, "thorough": 14400},
 }
 
@@ -453,6 +453,65 @@ def abi_recursion_probe(pt, acc, version, fp):
             acc.counters["abi_recursion_probe_ok"] += 1
 
 
+def declared_type_probe(pt, acc, rng, version, fp):
+    """Subroutines of every declared return type - none, uint64, bytes and anytype - called with pending operands on both sides,
+    under both calling conventions: the call yields exactly the value the body returns (anytype routines return one value too)."""
+    from .. import avm
+    from ..common import PT_ERRORS, reset_globals
+    reset_globals()
+    prog = declared_type_program(pt)
+    try:
+        teal = pt.compileTeal(prog, pt.Mode.Application, version=version, optimize=pt.OptimizeOptions(scratch_slots=False, frame_pointers=fp))
+    except PT_ERRORS as e:
+        acc.violation("declared_type_probe_rejected", {"probe": "declared_type", "version": version, "frame_pointers": fp}, "%s: %s" % (type(e).__name__, str(e)[:200]))
+        return
+    p = avm.parse_any(teal)
+    for n in (0, 2, 5):
+        r = avm.run(p, avm.Ctx(group=[{"ApplicationArgs": [n.to_bytes(8, "big")]}]))
+        acc.evaluations += 1
+        exp = [(1100 + n).to_bytes(8, "big"), b"<abc>", (7 * 41 + n + 1).to_bytes(8, "big"), (n + 2).to_bytes(8, "big"), (5000 + n * (n + 1) // 2).to_bytes(8, "big")]
+        if r.status != "approve" or r.logs != exp or r.san:
+            acc.violation("outcome_mismatch", {"probe": "declared_type", "version": version, "frame_pointers": fp, "n": n},
+                          "subroutines of declared type anytype/uint64/none: expected logs %r, observed status=%s err=%s logs=%r san=%r" % (exp, r.status, r.error, r.logs, r.san[:1]), teal=teal[-2000:])
+        else:
+            acc.counters["declared_type_probe_ok"] += 1
+
+
+def declared_type_program(pt):
+    I, B = pt.Int, pt.Bytes
+
+    @pt.Subroutine(pt.TealType.anytype)
+    def ident(x):
+        return x
+
+    @pt.Subroutine(pt.TealType.anytype)
+    def pick_state(k):
+        loc = pt.ScratchVar(pt.TealType.uint64)
+        return pt.Seq(loc.store(I(3)), pt.App.globalGet(k))
+
+    @pt.Subroutine(pt.TealType.anytype)
+    def rec_any(n, acc_):
+        return pt.If(n == I(0)).Then(acc_).Else(rec_any(n - I(1), acc_ + n))
+
+    @pt.Subroutine(pt.TealType.uint64)
+    def plain(x):
+        return x + I(1)
+
+    @pt.Subroutine(pt.TealType.none)
+    def note(x):
+        return pt.Log(pt.Itob(x))
+    a = pt.Btoi(pt.Txn.application_args[0])
+    prog = pt.Seq(
+        pt.App.globalPut(B("g"), I(41)),
+        pt.Log(pt.Itob(I(100) + ident(a) + I(1000))),
+        pt.Log(pt.Concat(B("<"), ident(B("abc")), B(">"))),
+        pt.Log(pt.Itob(I(7) * pick_state(B("g")) + plain(a))),
+        note(ident(a) + plain(I(1))),
+        pt.Log(pt.Itob(I(5000) + rec_any(a, I(0)))),
+        I(1))
+    return prog
+
+
 def run_shard(shard):
     import pyteal as pt
     from ..common import Acc, rng_for
@@ -461,6 +520,8 @@ def run_shard(shard):
         c = shard["replay"]
         if c.get("probe") == "byref_recursion":
             byref_recursion(pt, acc, c["version"])
+        elif c.get("probe") == "declared_type":
+            declared_type_probe(pt, acc, rng_for(0, "replay"), c["version"], c["frame_pointers"])
         elif c.get("probe") == "abi_recursion":
             abi_recursion_probe(pt, acc, c["version"], c["frame_pointers"])
         else:
@@ -510,6 +571,8 @@ def run_shard(shard):
     combos = [(6, None), (7, False), (8, None), (8, False), (10, None), (9, True)]
     v, fp = combos[sh % len(combos)]
     abi_recursion_probe(pt, acc, v, fp)
+    for v2, fp2 in ((5, None), (7, None), (8, None), (8, False), (10, None), (10, True)):
+        declared_type_probe(pt, acc, rng, v2, fp2)
     # ---- known finding probe (input class: non-local exit from operand position inside a subroutine)
     if sh == 0:
         w = nonlocal_witness("return")
